@@ -455,6 +455,10 @@ func runC02(c *Ctx) {
 				case (format == "%v%v" || format == "%s%s" || format == "%v%s" || format == "%s%v" || format == "%v%c" || format == "%s%c") && len(el) == 2:
 					d1, _, o1 := part(el[0])
 					_, s2, o2 := part(el[1])
+					// a separator handed over as a rune prints as its number with %v and %s ("dest47"): only %c prints the character
+					if bt, isB := resolveValue(el[1]).Type().Underlying().(*types.Basic); isB && bt.Info()&types.IsInteger != 0 && !strings.HasSuffix(format, "%c") {
+						return d1, false, false
+					}
 					return d1, s2, o1 && o2 && d1 && s2
 				case (format == "%v/" || format == "%s/") && len(el) == 1:
 					d1, _, o1 := part(el[0])
